@@ -39,7 +39,7 @@ type caseSpec struct {
 	Pool       int    `json:"pool"`       // B's transactions already in the follower's pool when the mutant arrives: 0 none, 1 all, 2 all but the last
 }
 
-var bodyMuts = []string{"dropTx", "dupTx", "swapTx", "alterAmount", "alterSig", "addTx", "dupTail", "alterPubkey", "emptyBody", "blockSig", "blockSig"}
+var bodyMuts = []string{"dropTx", "dupTx", "swapTx", "alterAmount", "alterSig", "alterSigRoot", "addTx", "dupTail", "alterPubkey", "emptyBody", "blockSig", "blockSig"}
 
 const knownPoolSig = "C28-pool-hash-hit-skips-signature-check"
 
@@ -121,6 +121,12 @@ func mutate(cfg *types.Chain33Config, parent, B *types.Block, c caseSpec) (*type
 	case "alterSig":
 		s := m.Txs[i].Signature.Signature
 		s[len(s)-1] ^= 1
+	case "alterSigRoot":
+		// a signature that does not verify, with the declared transaction root made consistent with the altered body
+		// (full transaction hashes enter the root); execution does not look at signatures, so the state root stays right
+		s := m.Txs[i].Signature.Signature
+		s[len(s)-1] ^= 1
+		m.TxHash = merkle.CalcMerkleRoot(cfg, m.Height, m.Txs)
 	case "alterPubkey":
 		p := m.Txs[i].Signature.Pubkey
 		p[len(p)-1] ^= 1
@@ -361,12 +367,22 @@ func TestPropInvalidBlocks(t *testing.T) {
 			Pool: rapid.SampledFrom([]int{0, 0, 1, 1, 2}).Draw(t, "pool"),
 			BeforeParent: rapid.IntRange(0, 2).Draw(t, "beforeParent") == 0,
 		}
-		if rapid.IntRange(0, 2).Draw(t, "kind") > 0 {
+		if rapid.IntRange(0, 3).Draw(t, "largeBlock") == 0 {
+			// blocks with more transactions than the machine has cores (signature checking is spread over workers), with
+			// the operand biased towards the last positions
+			c.NTx = rapid.SampledFrom([]int{9, 17, 19, 21, 33, 35, 40}).Draw(t, "ntxLarge")
+			if rapid.IntRange(0, 3).Draw(t, "tail") > 0 {
+				c.I = c.NTx - 1 - rapid.SampledFrom([]int{0, 0, 0, 1, 2}).Draw(t, "fromEnd")
+			}
+			c.Trunk = 1
+			c.Pool = 0
+			c.Mut = rapid.SampledFrom([]string{"alterSigRoot", "alterSigRoot", "alterSigRoot", "alterSig", "alterPubkey", "alterAmount", "swapTx", "dropTx"}).Draw(t, "mutLarge")
+		} else if rapid.IntRange(0, 2).Draw(t, "kind") > 0 {
 			c.Mut = rapid.SampledFrom(bodyMuts).Draw(t, "mut")
 		} else {
 			c.Mut = rapid.SampledFrom(headerMuts).Draw(t, "mut")
 		}
-		if c.Pool > 0 && (c.Mut == "alterSig" || c.Mut == "alterPubkey") && lib.Known(knownPoolSig) {
+		if c.Pool > 0 && (c.Mut == "alterSig" || c.Mut == "alterSigRoot" || c.Mut == "alterPubkey") && lib.Known(knownPoolSig) {
 			// with the transaction's id in the pool its signature is not verified at all (known finding of C28):
 			// excluded by construction while that finding is listed
 			lib.ExcludedKnown(knownPoolSig)
@@ -380,6 +396,9 @@ func TestPropInvalidBlocks(t *testing.T) {
 		}
 		if c.BeforeParent {
 			lib.Class("mutant_before_its_parent")
+		}
+		if c.NTx > 8 {
+			lib.Class("large_block")
 		}
 		if tolerated {
 			lib.Class("tolerated_known")
@@ -413,5 +432,20 @@ func TestKnown_TamperedBodyPoisonsHash(t *testing.T) {
 	if !bytes.Equal(tip, f.B.Hash(n.Cfg)) {
 		lib.KnownOrViolation(t, prop, "TestKnown_TamperedBodyPoisonsHash", knownPoison, c,
 			fmt.Sprintf("a block with B's header hash but one altered transaction signature is rejected (%v) yet stays indexed and stored under B's hash; the genuine B from another peer is then refused (%v) and never becomes the tip", errM, errB))
+	}
+}
+
+// TestRegress_LargeBlockTailSignature: blocks with more transactions than cores, the signature of one of the last
+// transactions altered (fixed cases; the same shapes are drawn by the search).
+func TestRegress_LargeBlockTailSignature(t *testing.T) {
+	defer lib.Flush()
+	for _, n := range []int{3, 5, 9, 17, 19, 21, 35, 40} {
+		for _, back := range []int{0, 1} {
+			for _, mut := range []string{"alterSig", "alterSigRoot", "alterPubkey"} {
+				c := caseSpec{Trunk: 1, NTx: n, Mut: mut, I: n - 1 - back, Broadcast: back == 0}
+				lib.Eval()
+				runCase(t, "TestRegress_LargeBlockTailSignature", c)
+			}
+		}
 	}
 }
